@@ -13,12 +13,19 @@ TARGETS: (lean name, rust fn name, file[, options]).  Options: `impl` (the metho
   `types_from` (further files whose struct / enum definitions may be read), `const_from` (further files for constants),
   `hints` ({local: type} for a `let` whose type Rust infers from a LATER use; a wrong hint is a type error of the translation),
   `calls` ({"alias::f": lean name} for a call through a module alias) with `uses` (regexes the file's imports must still match),
-  `opaque` (type aliases carried around but never computed with, a `Nat`).
+  `opaque` (type aliases carried around but never computed with, a `Nat`), `aliases` ({alias: type text}),
+  `extern` ({canonical text of a macro call in expression position: (parameter, type)} — the value enters as a parameter),
+  `opaque_lets` ({x: text}: `let x = text;` is skipped, `x` is unusable elsewhere), `extern_lets` ({x: (text, parameter, type)}: `let x = text;`
+  binds the parameter).  The texts are compared with the source on every run; a difference is an ERROR.
 
 Subset and the SEMANTICS each construct is given:
   values      every integer is a `Nat` below 2^width of its Rust type (usize = u64); `bool` is `Bool`; `Option<T>` is `Option`; tuples are
               products; `Vec<T>` / `&[T]` are `List`; a single-field tuple struct over an integer (`PageNumber(u32)`, `Self(x)`) is that
               integer; an enum with integer payloads becomes a generated `inductive` with the same variant names.
+              `isize` / `i64` / `i32` are `Int` (only literals, negated literals, casts of constants and comparisons).  A struct VALUE
+              (`Self { … }`, `Name { … }`) is the tuple of the struct's fields in declaration order (arrays flattened; all fields required).
+              A `self` that is an enum with non-integer payloads enters as its variant TAG (generated `inductive <Enum>_kind`); `match self`
+              with `Enum::Variant(_, …)` patterns and guards becomes a chain of tests of the tag.
   result      `Option R`: `none` = the Rust function PANICS (debug build: overflow of + - *, division / remainder by zero, shift by >= width,
               failed `assert!` / `assert_eq!` / `assert_ne!`, `panic!` / `unreachable!`, index out of bounds, `unwrap` of `None`).
               A function with a `loop` / `while` takes `fuel` first and returns `Option (Option R)`: outer `none` = the fuel ran out,
@@ -33,7 +40,9 @@ Subset and the SEMANTICS each construct is given:
               `Option` (`None` / `Some(pattern)`, tuple patterns), `return [e];`, the assert / panic macros, calls of unit methods,
               `loop { }` / `while c { }` (auxiliary definition, recursion on explicit fuel, all variables in scope are its parameters,
               `continue` = recursive call, `break` = the statements after the loop), `for i in a..b` / `(a..b).rev()` (auxiliary definition,
-              structural recursion on the number of remaining iterations — no fuel), trailing expression.  Nested loops are NOT translated.
+              structural recursion on the number of remaining iterations — no fuel), trailing expression.  A loop INSIDE a loop is translated
+              only if it is a `for` over a literal range of at most 64 iterations: it is UNROLLED (it may leave through a labelled `break` /
+              `continue` of the enclosing loop or a `return`, not through its own).  Parameters the body never mentions are dropped.
   expressions integer literals (dec / hex / bin / octal, `_`, type suffix), `true` / `false`, locals, parameters,
               UPPER_CASE constants (resolved by tools/gen_constants.py's evaluator from their `const` items),
               `u64::MAX`-style constants, + - * / % << >> & | ^ ! (bitwise / logical), comparisons, && || (short-circuit),
